@@ -478,6 +478,37 @@ def gen_wops(rng, n, big=False, plain=False):
     return ops
 
 
+def gen_seekback_wops(rng):
+    """begin a block, write a little, seek BACK (or forward / nowhere) while bits remain -- or after running past the
+    end -- then write more than |delta| bits (1s, 0s and values) up to and beyond the real end of the block"""
+    skip = rng.randrange(0, 12)
+    ln = rng.randrange(-2, 30)
+    ops = [("nbits", skip, rng.randrange(0, 1 << skip) if skip else 0), ("begin", ln)]
+    adv = rng.randrange(0, max(ln, 0) + 1)
+    ops += [("bit", rng.random() < 0.5) for _ in range(adv)]
+    if rng.random() < 0.3:
+        ops += [("bit", True) for _ in range(max(ln, 0) - adv + rng.randrange(0, 3))]  # up to / past the end
+        adv = max(ln, 0)
+    target = skip + rng.randrange(0, adv + 1) if rng.random() < 0.8 else rng.randrange(0, skip + max(ln, 0) + 3)
+    ops.append(("seek", target // 8, 7 - target % 8))
+    room = skip + max(ln, 0) - target
+    for _ in range(rng.randrange(1, 4)):
+        k = rng.randrange(4)
+        if k == 0:
+            ops += [("bit", rng.random() < 0.7) for _ in range(rng.randrange(1, max(room, 1) + 3))]
+        elif k == 1:
+            nb = rng.randrange(1, max(room, 1) + 2)
+            ops.append(("nbits", nb, rng.choice([(1 << nb) - 1, rng.randrange(0, 1 << nb)])))
+        elif k == 2:
+            ops.append(("sint", rng.randrange(-9, 10)))
+        else:
+            ops.append(("seek", (target + rng.randrange(0, 4)) // 8, rng.randrange(0, 8)))
+    ops.append(("end",))
+    if rng.random() < 0.5:
+        ops.append(("nbits", 5, rng.randrange(32)))
+    return ops
+
+
 def gen_rops(rng, n):
     ops = []
     for _ in range(n):
@@ -616,7 +647,8 @@ def run(ctx):
         "exhaustive: every byte string of 0..ceil(N/8) bytes with the first N bits enumerated (N=%d) x 21 block lengths "
         "(none, -3..16; quick tier: model tie on every fourth length per file, rotating, oracle on all) x every primitive of both readers, observations (value, tell, bits_remaining, exception) checksummed "
         "and compared with the model; random op sequences for writer / BitstreamReader / decoder reader continuing after "
-        "exceptions; structured read programs; integers up to 2^300.  A case is non-trivial when at least one real bit is "
+        "exceptions (every fourth writer sequence: block, seek back/forward while bits remain or past the end, then writes beyond |delta|); "
+        "structured read programs; integers up to 2^300; oracle incl. the seek-in-block law on writer and reader.  A case is non-trivial when at least one real bit is "
         "read or written (distinct by input)." % ctx.pick(10, 14))
 
     def corr_fail(name, bad, describe):
@@ -661,7 +693,7 @@ def run(ctx):
     for i in range(ctx.pick(500, 8000)):
         big = i % 5 == 0
         f0 = [] if rng.random() < 0.6 else rand_file(rng, 4)
-        ops = gen_wops(rng, rng.randrange(1, 9 if big else 14), big=big)
+        ops = gen_wops(rng, rng.randrange(1, 9 if big else 14), big=big) if i % 4 else gen_seekback_wops(rng)
         obs, final = run_w(f0, ops)
         wcases.append("(%s, [%s], (%s, %s))" % (clist(f0), "; ".join(c_wop(o) for o in ops), cll(obs), clist(final)))
         wmeta.append((f0, ops))
@@ -920,6 +952,166 @@ def oracle(ctx):
             ctx.violation("seek-tell", {"data": data, "n": n1}, "seek(tell()) must re-read the same bits and offsets must convert both ways",
                           observed=[a, b, t], expected=n1)
 
+    # (e) seek inside a bounded block (writer AND reader): the block's end position is kept, what is written /
+    #     read afterwards up to the real end is real, beyond it 1s only, bounded_block_end() tells the truth
+    for i in range(ctx.pick(2500, 30000)):
+        c = gen_seek_case(rng, "writer" if i % 2 else "reader")
+        ctx.count(1, key=("seekblk", i), bucket="seek-in-block-" + c["who"])
+        for key, desc, observed, expected in seek_block_case(c):
+            ctx.violation(key, c, desc, observed=observed, expected=expected)
+
+
+def gen_seek_case(rng, who):
+    skip = rng.randrange(0, 12)
+    ln = rng.randrange(-3, 28)
+    room = max(ln, 0)
+    mode = rng.randrange(4)  # 0,1: bits remain; 2: exactly at the end; 3: past the end (negative bits_remaining)
+    adv = rng.randrange(0, room + 1) if mode < 2 else (room if mode == 2 else room + rng.randrange(1, 4))
+    end = skip + room
+    pos = skip + min(adv, room)
+    t = rng.randrange(6)
+    if t < 3:
+        target = rng.randrange(0, pos + 1) if rng.random() < 0.3 else rng.randrange(skip, pos + 1)  # backwards (or zero)
+    elif t == 3:
+        target = pos  # not moving
+    elif t == 4:
+        target = rng.randrange(pos, end + 1)  # forwards inside the block
+    else:
+        target = end + rng.randrange(1, 5)  # past the end: must be refused
+    unused = max(end - target, 0)
+    npost = rng.randrange(0, unused + 1) if rng.random() < 0.6 else unused
+    c = {"who": who, "skip": skip, "length": ln, "advance": adv, "target": target,
+         "pre": [rng.random() < 0.5 for _ in range(min(adv, room))],
+         "post": [rng.random() < 0.5 for _ in range(npost)],
+         "finish": rng.choice(["end", "fill"])}
+    if who == "writer":
+        c["prefix"] = rng.randrange(0, 1 << skip) if skip else 0
+    else:
+        c["data"] = [rng.randrange(256) for _ in range((end + 7) // 8 + 1)]
+    return c
+
+
+def seek_block_case(c):
+    """The law of C20_seek_in_block_writer/_reader and its consequences on the real classes.
+    Returns a list of (key, description, observed, expected)."""
+    bio, OutOfRangeError, eg, dio, UEOS_, State, bitarray = I()
+    tob = bio.to_bit_offset
+    fails = []
+    skip, ln, adv, target = c["skip"], c["length"], c["advance"], c["target"]
+    room = max(ln, 0)
+    writer = c["who"] == "writer"
+    try:
+        if writer:
+            f = io.BytesIO()
+            x = bio.BitstreamWriter(f)
+            x.write_nbits(skip, c["prefix"])
+            x.bounded_block_begin(ln)
+            for b in c["pre"]:
+                x.write_bit(b)
+            for _ in range(adv - len(c["pre"])):
+                x.write_bit(1)  # past the end
+        else:
+            x = bio.BitstreamReader(io.BytesIO(bytes(bytearray(c["data"]))))
+            x.read_nbits(skip)
+            x.bounded_block_begin(ln)
+            for _ in range(adv):
+                x.read_bit()
+        pos0, rem0 = tob(*x.tell()), x.bits_remaining
+        end = pos0 + max(0, rem0)
+        if end != skip + room:
+            fails.append(("block-end-position", "position + max(0, bits_remaining) is not the end of the block before any seek", end, skip + room))
+        by, bi = bio.from_bit_offset(target)
+        if target > end:
+            try:
+                x.seek(by, bi)
+                raised = False
+            except Exception:
+                raised = True
+            if not raised or (tob(*x.tell()), x.bits_remaining) != (pos0, rem0):
+                fails.append(("seek-past-block-end-" + c["who"], "a seek beyond the end of the bounded block must raise and change nothing",
+                              [raised, tob(*x.tell()), x.bits_remaining], [True, pos0, rem0]))
+            return fails
+        x.seek(by, bi)
+        end1 = tob(*x.tell()) + max(0, x.bits_remaining)
+        if tob(*x.tell()) != target or end1 != end:
+            fails.append(("seek-in-block-%s-moves-block-end" % c["who"],
+                          "seek() inside a bounded block must keep to_bit_offset(tell()) + max(0, bits_remaining) (the block's end)",
+                          {"tell": tob(*x.tell()), "bits_remaining": x.bits_remaining, "block_end": end1},
+                          {"tell": target, "bits_remaining_at_least": end - target, "block_end": end}))
+        unused = end - target
+        post = c["post"]
+        if writer:
+            try:
+                for b in post:
+                    x.write_bit(b)
+            except ValueError:
+                fails.append(("write-inside-block-after-seek-rejected", "bits written before the real end of the block (after a seek) must be accepted",
+                              "ValueError", "accepted"))
+                return fails
+            written = list(post)
+            if c["finish"] == "end":
+                left = x.bounded_block_end()
+                if left != unused - len(post):
+                    fails.append(("bounded_block_end-after-seek", "bounded_block_end() must return the true number of unused bits after a seek",
+                                  left, unused - len(post)))
+            else:
+                zeros_at = rem_ok = None
+                try:
+                    for j in range(unused - len(post)):
+                        b = (j % 3 != 0)
+                        x.write_bit(b)  # 0s and 1s up to the real end
+                        written.append(b)
+                except ValueError:
+                    fails.append(("write-inside-block-after-seek-rejected", "0 bits before the real end of the block (after a seek) must be accepted",
+                                  "ValueError", "accepted"))
+                    return fails
+                x.flush()
+                snap = (f.getvalue(), x.tell())
+                x.write_bit(1)
+                x.write_nbits(3, 7)
+                x.flush()
+                if (f.getvalue(), x.tell()) != snap:
+                    fails.append(("write-past-block-end-after-seek", "1s past the real end of the block must write nothing", repr((f.getvalue(), x.tell())), repr(snap)))
+                try:
+                    x.write_bit(0)
+                    zero = "accepted"
+                except ValueError:
+                    zero = "ValueError"
+                if zero != "ValueError" or x.bounded_block_end() != 0:
+                    fails.append(("write-past-block-end-after-seek", "a 0 past the real end of the block must raise ValueError", zero, "ValueError"))
+            x.flush()
+            if written:
+                data = list(bytearray(f.getvalue()))
+                exp = [int(b) for b in written]
+                r = bio.BitstreamReader(io.BytesIO(f.getvalue()))
+                r.read_nbits(target)
+                got = [r.read_bit() for _ in written]
+                st = new_d(data)
+                dio.read_nbits(st, target)
+                gd = [dio.read_bit(st) for _ in written]
+                if got != exp or gd != exp:
+                    fails.append(("write-after-seek-not-in-file", "bits written inside the block after a seek must be in the file at the seek target",
+                                  {"bitstream_reader": got, "decoder_reader": gd}, exp))
+        else:
+            allbits = [(b >> (7 - j)) & 1 for b in c["data"] for j in range(8)]
+            n = len(post) if c["finish"] == "end" else unused
+            got = [x.read_bit() for _ in range(n)]
+            if got != allbits[target:target + n] or tob(*x.tell()) != target + n:
+                fails.append(("read-inside-block-after-seek", "reads before the real end of the block (after a seek) must return the file's bits",
+                              [got, tob(*x.tell())], [allbits[target:target + n], target + n]))
+            if c["finish"] == "end":
+                left = x.bounded_block_end()
+                if left != unused - n:
+                    fails.append(("bounded_block_end-after-seek", "bounded_block_end() must return the true number of unused bits after a seek", left, unused - n))
+            else:
+                ones = [x.read_bit() for _ in range(4)] + [x.read_uint()]
+                if ones != [1, 1, 1, 1, 0] or tob(*x.tell()) != end or x.bounded_block_end() != 0:
+                    fails.append(("read-past-block-end-after-seek", "reads past the real end of the block must yield 1s without moving",
+                                  [ones, tob(*x.tell())], [[1, 1, 1, 1, 0], end]))
+    except Exception as e:  # noqa -- nothing in these scenarios may raise anything else
+        fails.append(("seek-in-block-unexpected-exception", "unexpected exception in a legal bounded-block seek scenario", repr(e), "no exception"))
+    return fails
+
 
 def _try_bits(r, n):
     out = []
@@ -1062,6 +1254,11 @@ def replay(ctx, data):
         except Exception as e:  # noqa
             print("raised", repr(e))
             bad = True
+    elif isinstance(inp, dict) and inp.get("who") in ("writer", "reader") and "target" in inp:
+        fails = seek_block_case(inp)
+        for k, desc, observed, expected in fails:
+            print(" -", k, ":", desc, "| observed", observed, "| expected", expected)
+        bad = bool(fails)
     else:
         print("observed:", data.get("observed"), "expected:", data.get("expected"))
         print("re-run `./check C20` to re-evaluate this oracle clause (generators are seeded: VERIF_SEED=%s)" % data.get("seed"))
